@@ -5,6 +5,7 @@ from lib import tlc, harness
 
 LEVEL = 'model_checking'
 MODES = ['A', 'B', 'C', 'D', 'E']
+PRIO = {'A': 100, 'B': 200, 'C': 100, 'D': 100, 'E': 50}
 NAMES = ['will_start', 'starting', 'started', 'will_stop', 'stopping', 'stopped']
 _H = {}
 
@@ -91,7 +92,8 @@ def digest(machine):
         out.append(('swt', sw.name, len(d)))
     for name, mode in machine.modes.items():
         out.append(('mode', name, len(mode.delay.delays), len(mode.mode_devices), len(mode.stop_methods)))
-    out.append(('mdelay', tuple(sorted(k for k in machine.delay.delays if not k.count('-') == 4))))
+    out.append(('mdelay', len(machine.delay.delays), tuple(sorted(k for k in machine.delay.delays if not k.count('-') == 4))))
+    out.append(('rules', len(getattr(machine.default_platform, 'rules', {}) or {})))
     for coll in ('counters', 'timers'):
         for dev in getattr(machine, coll).values():
             out.append((coll, dev.name, len(dev.delay.delays) if getattr(dev, 'delay', None) else 0,
@@ -130,12 +132,19 @@ class ModeRun:
 
     def request(self, s):
         m, kind = s['m'], s['kind']
-        self.ev.append({'op': 'req', 'm': m, 'kind': kind})
+        alt = bool(s.get('alt', False))
+        rec = {'op': 'req', 'm': m, 'kind': kind}
+        kw = {}
+        if kind == 'start':
+            rec['alt'] = alt
+            if alt:     # a start that carries an explicit priority (configured priority + 7)
+                kw['mode_priority'] = PRIO[m] + 7
+        self.ev.append(rec)
         via = self.via if self.via != 'mixed' else self.rnd.choice(['event', 'direct'])
         if via == 'event':
-            self.m.events.post('vm_%s_%s' % (kind, m))
+            self.m.events.post('vm_%s_%s' % (kind, m), **kw)
         elif kind == 'start':
-            self.m.modes[m].start()
+            self.m.modes[m].start(**kw)
         else:
             self.m.modes[m].stop()
 
@@ -188,10 +197,21 @@ class ModeRun:
             self.rest()
             # stop everything (E restarts itself on its own stopped event: stop it directly twice is pointless,
             # so it is left to the reset below), then look for leftovers after all timers could have fired
+            # trigger the modes' delayed handlers / control events shortly before everything is stopped: whatever a
+            # mode scheduled on behalf of its devices must be gone as soon as it has stopped
             for m in MODES:
                 if self.m.modes[m].active:
-                    self.request({'m': m, 'kind': 'stop'})
-                    settle(self.h, 12)
+                    self.m.events.post('vm_ping_%s_delayed' % m)
+                    self.m.events.post('vm_cnt_on_%s' % m)
+                    self.m.events.post('vm_pause_%s' % m)
+            self.h.advance_time_and_run(0.1)
+            for _ in range(4):      # repeatedly: stopping A starts D, held queue events delay a stop
+                self.release()
+                settle(self.h, 20)
+                for m in MODES:
+                    if self.m.modes[m].active and not self.m.modes[m].stopping:
+                        self.request({'m': m, 'kind': 'stop'})
+                        settle(self.h, 20)
             self.rest()
             self.h.advance_time_and_run(10)
             self.rest()
@@ -219,11 +239,13 @@ def exec_schedule(job):
 
 
 def handmade():
-    S = lambda m: {'op': 'req', 'm': m, 'kind': 'start'}
+    S = lambda m, alt=False: {'op': 'req', 'm': m, 'kind': 'start', 'alt': alt}
     T = lambda m: {'op': 'req', 'm': m, 'kind': 'stop'}
     E = lambda m, n: {'op': 'ev', 'm': m, 'name': n}
     return [
         [S('A'), T('A')],
+        # a rejected start must not change the priority of the running mode
+        [S('A'), S('C'), S('A', True), S('C', True), T('A'), S('A', True), S('A')],
         # restart from the handler of the mode's own stopped event, then stop it again by event
         [S('C'), T('C'), E('C', 'stopped'), S('C'), T('C')],
         [S('A'), S('A'), S('B'), T('A'), T('A'), S('C'), T('B'), T('C')],
